@@ -56,7 +56,8 @@ type RTObs struct {
 	Expiry        int      `json:"expiry"`
 	RetDescOK     bool     `json:"retDescOK"`
 	MetaOK        bool     `json:"metaOK"`
-	BrokenReader  string   `json:"brokenReader"` // "n/a" | "refused" | "accepted": a blob reader that fails part-way, signature over the part delivered
+	BrokenReader  string   `json:"brokenReader"`
+	WrongBlob     string   `json:"wrongBlob"` // "n/a" | "refused" | "accepted": ANOTHER blob offered with the signature (and the metadata the signature carries) // "n/a" | "refused" | "accepted": a blob reader that fails part-way, signature over the part delivered
 	Panic         bool     `json:"panic"`
 	Note          string   `json:"-"`
 }
@@ -186,7 +187,7 @@ func runRoundTrip() int {
 		ver, bver := rtVerifier(chain, in.Signer == "localTSA")
 		meta := rtMeta(in.Meta)
 		ctx := context.Background()
-		obs := RTObs{PayloadFields: []string{}, BrokenReader: "n/a"}
+		obs := RTObs{PayloadFields: []string{}, BrokenReader: "n/a", WrongBlob: "n/a"}
 		sopts := notation.SignerSignOptions{SignatureMediaType: mediaTypeOf(in.Format), ExpiryDuration: time.Duration(in.Expiry) * time.Second, SigningAgent: "verif-harness/1"}
 		if in.Signer == "localTSA" {
 			// the library's own signing path asks the mini-TSA for an RFC 3161 countersignature
@@ -240,6 +241,18 @@ func runRoundTrip() int {
 				for k, v := range meta {
 					wantTarget.Annotations[k] = v
 				}
+				if mix(*flagSeed, c.ID, "foreign")%2 == 1 {
+					// somebody else has signed the artifact before: a signature of the OTHER envelope format by a signer this
+					// verifier does not trust (it fails verification; the library's own signature must be found all the same)
+					other := "cose"
+					if in.Format == "cose" {
+						other = "jws"
+					}
+					fp, _ := json.Marshal(map[string]interface{}{"targetArtifact": ocispec.Descriptor{MediaType: art.MediaType, Digest: art.Digest, Size: art.Size}})
+					fenv := SignEnvelope(EnvSpec{Format: other, Chain: stdChainByKey("unrelated3"), Payload: fp})
+					_, _, ferr := repo.PushSignature(ctx, mediaTypeOf(other), fenv, art, map[string]string{"io.cncf.notary.x509chain.thumbprint#S256": "[]"})
+					must(ferr)
+				}
 				_, _, err = notation.SignOCI(ctx, sg, repo, notation.SignOptions{SignerSignOptions: sopts, ArtifactReference: "v1", UserMetadata: copyMap(meta)})
 				if err != nil {
 					obs.Note = "sign: " + err.Error()
@@ -292,6 +305,13 @@ func runRoundTrip() int {
 					outcome = oc
 					// successful blob verification returns the descriptor of the blob that was verified
 					obs.RetDescOK = desc.Digest == wantTarget.Digest && desc.Size == wantTarget.Size && desc.MediaType == cmt
+					// ANOTHER blob (one more byte) with this signature, asking for exactly the metadata the signature carries
+					_, _, werr := notation.VerifyBlob(ctx, bver, bytes.NewReader(append(append([]byte{}, blob...), '!')), sig, notation.VerifyBlobOptions{ContentMediaType: cmt,
+						BlobVerifierVerifyOptions: notation.BlobVerifierVerifyOptions{SignatureMediaType: mediaTypeOf(in.Format), TrustPolicyName: "bp", UserMetadata: copyMap(meta)}})
+					obs.WrongBlob = "refused"
+					if werr == nil {
+						obs.WrongBlob = "accepted"
+					}
 					// a reader that fails after half of the blob, and a valid signature over exactly that half: not a verified blob
 					if half := blob[:len(blob)/2]; len(half) > 0 {
 						if hsig, _, herr := notation.SignBlob(ctx, sg, bytes.NewReader(half), notation.SignBlobOptions{SignerSignOptions: sopts, ContentMediaType: cmt}); herr == nil {
